@@ -282,6 +282,45 @@ pub fn run_case(a: &Args, tag: &'static str, idx: u64, acc: &mut Acc) {
         }
         su = nu;
         let _ = &sa as &Snap;
+        // (f) exactness under a failing underlying filesystem: an observer whose k-th call into the underlying
+        // filesystem fails must have the same outcome through the altroot as the translated observer on the twin
+        if rng.chance(1, 2) {
+            let q = if rng.chance(1, 6) { String::new() } else { rng.pick(&universe.paths).clone() };
+            let obs = match rng.below(7) {
+                0 => Op::Exists(q),
+                1 => Op::Metadata(q),
+                2 => Op::IsFile(q),
+                3 => Op::IsDir(q),
+                4 => Op::ReadDir(q),
+                5 => Op::ReadToString(q),
+                _ => Op::OpenRead(q, vec![]),
+            };
+            let mut tobs = obs.clone();
+            match &mut tobs {
+                Op::Exists(x) | Op::Metadata(x) | Op::IsFile(x) | Op::IsDir(x) | Op::ReadDir(x) | Op::ReadToString(x) => *x = tr(x),
+                Op::OpenRead(x, _) => *x = tr(x),
+                _ => {}
+            }
+            let k = rng.range(1, 2) as u64;
+            b.ctl.arm(k, under_id);
+            let r1 = crate::ops::exec(&b.root, &obs);
+            let (_, inj1, _, _) = b.ctl.disarm();
+            twin.ctl.arm(k, 0);
+            let r2 = crate::ops::exec(&twin.root, &tobs);
+            let (_, inj2, _, _) = twin.ctl.disarm();
+            if inj1 > 0 && inj2 > 0 {
+                acc.count("fault_equivalence_checks", 1);
+                if r1.is_ok() != r2.is_ok() {
+                    acc.violate(Violation {
+                        property: "C07",
+                        signature: format!("fault-outcome|{}|alt:{}|twin:{}", obs.name(), crate::ops::res_class(&r1), crate::ops::res_class(&r2)),
+                        summary: format!("with the {}. call into the underlying filesystem failing, {} through the altroot => {} but {} on the underlying twin => {}", k, obs.render(), render_res(&r1), tobs.render(), render_res(&r2)),
+                        detail: mk(&trace, J::Null),
+                        order,
+                    });
+                }
+            }
+        }
     }
     if idx < 3 {
         acc.sample(idx, J::obj().set("case", J::i(idx)).set("config", J::s(cfg.desc())).set("decoys", J::arr(dec.iter().map(|(k, n)| J::s(match n { Node::Dir => format!("{}/", k), Node::File(b) => format!("{}={}", k, bytes_repr(b)) })))).set("ops", J::arr(trace.iter().map(J::s))));
